@@ -91,7 +91,13 @@ def same_value(a, b):
         return False
 
 
+LOOK = {'p': 1.0, 'rng': None}      # how often a list is built (looked at) after an ordinary add / remove: set per history
+
+
 def compare(ctx, pl, decl, what):
+    if LOOK['p'] < 1.0 and what.startswith('after (') and LOOK['rng'].random() >= LOOK['p']:
+        ctx.count('operations_after_which_nobody_built')
+        return None
     exp = product(decl)
     got = pl.build()
     ctx.ev()
@@ -120,6 +126,7 @@ def case_history(ctx, case):
     import ECAgent.Batching as batching
     BY_VALUE[0] = False
     rng = ctx.rng('hist', case['i'])
+    LOOK['p'], LOOK['rng'] = rng.choice([1.0, 1.0, 0.5, 0.2]), rng
     decl = []         # [(name, value)] in declaration order
     trace = []
     flags = set()
@@ -236,6 +243,8 @@ def case_history(ctx, case):
             ctx.count('rejected_unknown_removal'); flags.add('rej')
             trace.append(('remove!', n))
         g1 = compare(ctx, pl, decl, f'after {trace[-1]}')
+        if g1 is None:
+            continue                # nobody built the list after this operation
         g2 = compare(ctx, pl, decl, 'second build')
         check(g1 is not g2, 'two builds returned the same list object')
         seen = set()
